@@ -19,7 +19,7 @@ From Coq Require Import List ZArith NArith QArith Qcanon Bool.
 Import ListNotations.
 Require Import UPV.Core.Expr UPV.Core.Eval UPV.Core.Interp UPV.Planning.Problem UPV.Planning.Sem.
 Require Import UPV.Compilers.Variants UPV.Compilers.LayerA_Defs UPV.Compilers.LayerA_Quant UPV.Compilers.LayerA_Variants.
-Require Import UPV.Compilers.LayerA_Ground.
+Require Import UPV.Compilers.LayerA_Ground UPV.Compilers.LayerA_Inv UPV.Compilers.LayerA_Neg.
 Local Open Scope nat_scope.
 
 Definition pstep := (N * list value)%type.          (* ActionInstance: action name, actual parameters *)
@@ -63,11 +63,13 @@ Definition stage_complete (st : stage) : Prop :=
                 Forall (st_okD st) pi' /\
                 sub_noop_eq (st_src st) s pi (pback (st_back st) pi').
 
-(* what composing completeness needs on top: the map back turns "delete steps that change nothing in the compiled
-   problem" into "delete steps that change nothing in the source problem" (every compiler of Layer A simulates the
-   source problem step by step, which gives this: [sim_noop]) *)
+(* what composing completeness needs on top: for a VALID compiled plan the map back turns "delete steps that change
+   nothing in the compiled problem" into "delete steps that change nothing in the source problem" (every compiler of
+   Layer A simulates the source problem step by step, which gives this: [sim_noop]; the compilers that move the state
+   invariants into preconditions and goals simulate it only along valid plans, hence the validity hypothesis) *)
 Definition stage_noop (st : stage) : Prop :=
   forall s s' pi' rho', st_rel st s s' -> Forall (st_okD st) pi' ->
+    valid_plan false (st_dst st) s' pi' = true ->
     sub_noop_eq (st_dst st) s' pi' rho' ->
     sub_noop_eq (st_src st) s (pback (st_back st) pi') (pback (st_back st) rho').
 
@@ -154,3 +156,31 @@ Definition qc_stages (smp : expr -> expr) (simp_pre : list expr -> option (list 
 Definition gc_stages (smp : expr -> expr) (tuples : N -> list (list value)) (gnm : N -> nat -> N) (G1 : state -> Prop)
   (simp_pre : list expr -> option (list expr)) (nm : N -> nat -> N) (G2 : state -> Prop) (P : problem) : list stage :=
   [ground_stage smp tuples gnm G1 P; cer_stage simp_pre nm G2 (ground_compile smp tuples gnm P)].
+
+(* ------------------------------------------------------------------ further compilers as stages (third round) *)
+(* NegativeConditionsRemover: names and parameters kept; the compiled state also holds the negation fluents
+   ([neg_rel]: complements) *)
+Definition ncr_stage (nmap : list (N * N)) (rw smp : expr -> expr) (P : problem) : stage :=
+  {| st_src := P; st_dst := neg_compile nmap rw smp P; st_back := fun x => Some x; st_aux := 0;
+     st_rel := neg_rel nmap; st_okS := fun _ => True; st_okD := fun _ => True |}.
+
+(* BoundedTypesRemover / StateInvariantsRemover: names kept, same states; the moved constraints must hold initially
+   (exactly the difference of the two verdicts: C06_LA_btr_valid_plan / C06_LA_sir_valid_plan) *)
+Definition btr_stage (smp : expr -> expr) (P : problem) : stage :=
+  {| st_src := P; st_dst := btr_compile smp P; st_back := fun x => Some x; st_aux := 0;
+     st_rel := fun s s' => s = s' /\ all_hold false (mk_interp P s []) (bound_invs P) = true;
+     st_okS := fun _ => True; st_okD := fun _ => True |}.
+
+Definition sir_stage (smp : expr -> expr) (P : problem) : stage :=
+  {| st_src := P; st_dst := sir_compile smp P; st_back := fun x => Some x; st_aux := 0;
+     st_rel := fun s s' => s = s' /\ all_hold false (mk_interp P s []) (p_invs P) = true;
+     st_okS := fun _ => True; st_okD := fun _ => True |}.
+
+(* CompilersPipeline([QuantifiersRemover(), NegativeConditionsRemover()]) *)
+Definition qn_stages (smp : expr -> expr) (nmap : list (N * N)) (rw smp2 : expr -> expr) (P : problem) : list stage :=
+  [quant_stage smp P; ncr_stage nmap rw smp2 (quant_compile smp P)].
+
+(* CompilersPipeline([BoundedTypesRemover(), ConditionalEffectsRemover()]) *)
+Definition bc_stages (smp : expr -> expr) (simp_pre : list expr -> option (list expr)) (nm : N -> nat -> N)
+  (G : state -> Prop) (P : problem) : list stage :=
+  [btr_stage smp P; cer_stage simp_pre nm G (btr_compile smp P)].
